@@ -16,6 +16,7 @@ sequential witness in the reference model that respects real-time order.
 from __future__ import annotations
 
 import itertools
+import os as _os
 import time as _real_time
 
 import dns.message
@@ -44,11 +45,11 @@ BOUNDS = (
     "flush key/all, resize -1..5, clock advance 0/0.5/1/2/3, hits, misses, snapshot, "
     "reset_statistics, get_hits_for_key) over <= 6 keys, LRU sizes 1-4, cleaning interval "
     "0.5-4, one third of them with a clock that also ticks 0.125 on every time.time() call "
-    "(quick 700 histories, thorough 9000).  THREADED: 2-4 threads x 1-3 operations on one "
+    "(quick 1500 histories, thorough 20000).  THREADED: 2-4 threads x 1-3 operations on one "
     "cache, controlled schedules with pre-emption at every lock acquisition and every source "
     "line of the cache methods: exhaustive DFS with <= 2 pre-emptions for curated and seeded "
-    "2- and 3-thread programs (quick 40 programs, thorough 400; <= 400 schedules each) plus "
-    "seeded random schedules of 4-thread programs (quick 500, thorough 8000); every history "
+    "2- and 3-thread programs (quick 60 programs, thorough 400, 17 of them curated; <= 400 schedules each) plus "
+    "seeded random schedules of 4-thread programs (quick 1000, thorough 10000); every history "
     "plus a sequential audit (counters, recency order, get of every key) is checked for a "
     "sequential witness by exhaustive search.  Not covered: pre-emption inside a bytecode "
     "(A-gil), mutation of an Answer after put, more than 4 threads / 6 keys."
@@ -260,6 +261,16 @@ def _ring_keys(cache):
     return out
 
 
+def _raised_in_library(e):
+    tb = e.__traceback__
+    last = None
+    while tb is not None:
+        last = tb
+        tb = tb.tb_next
+    fn = last.tb_frame.f_code.co_filename if last is not None else ""
+    return fn == dns.resolver.__file__ or fn.startswith(_os.path.dirname(dns.resolver.__file__))
+
+
 class SeqRun:
     """Runs one operation sequence on a fresh real cache and the model in lock step."""
 
@@ -283,7 +294,16 @@ class SeqRun:
 
     def step(self, op):
         with _Patched(self.clock):
-            self._step(op)
+            try:
+                self._step(op)
+            except Fail:
+                raise
+            except Exception as e:
+                if _raised_in_library(e):
+                    raise Fail("C17.latest", "%s raised %s: %s" % (op[0], type(e).__name__, str(e)[:80]),
+                               {"cache": self.name, "check": "exception", "op": op[0],
+                                "exc": type(e).__name__})
+                raise
 
     def _step(self, op):
         c, m, clock, name = self.cache, self.model, self.clock, self.name
@@ -416,7 +436,10 @@ class SeqRun:
 
 
 def _emit(R, f, replay):
-    R.violation(f[0], f[1], sig=f[2], replay=replay)
+    rep = dict(replay)
+    rep["clause"] = f[0]
+    rep["sig"] = f[2]
+    R.violation(f[0], f[1], sig=f[2], replay=rep)
 
 
 def run_sequence(R, kind, init, tick, eager, ops, count=True):
@@ -429,6 +452,9 @@ def run_sequence(R, kind, init, tick, eager, ops, count=True):
             sr.step(op)
     except Fail as f:
         failed = (f.clause, f.what, f.sig)
+    except Exception as e:  # the harness itself
+        if len(R.notes) < 20:
+            R.note("harness error in sequential history at step %d %r: %r" % (i, ops[i], e))
     rep = {"mode": "seq", "kind": kind, "init": init, "tick": tick, "ops": [list(o) for o in ops[: i + 1]]}
     if sr.shrink_finding is not None:
         _emit(R, sr.shrink_finding, rep)
@@ -824,6 +850,7 @@ CURATED = [
     ("LRU", 2, [[("put", 0, 5), ("get", 0)], [("get", 0), ("hits",)], [("get", 0), ("misses",)]]),
     ("LRU", 2, [[("put", 0, 5), ("get", 0), ("get", 0)], [("reset",), ("snap",)]]),
     ("LRU", 2, [[("put", 0, 5)], [("put", 1, 5)], [("put", 2, 5)]]),
+    ("LRU", 2, [[("put", 0, 5), ("get", 0), ("get", 1), ("snap",)], [("reset",)]]),
     ("Cache", 2.0, [[("put", 0, 5), ("get", 0)], [("put", 0, 5), ("get", 0)]]),
     ("Cache", 2.0, [[("put", 0, 5), ("get", 0)], [("flush", None), ("get", 0)]]),
     ("Cache", 1.0, [[("put", 0, 1), ("get", 0)], [("adv", 1.0), ("put", 1, 1), ("get", 0)]]),
@@ -876,7 +903,7 @@ def run(R):
                % (kind, init, depth, n, "" if complete else " (INCOMPLETE)"))
 
     # ---- sequential, seeded histories
-    nhist = 700 if quick else 9000
+    nhist = 1500 if quick else 20000
     done = 0
     for i in range(nhist):
         if R.deadline():
@@ -894,7 +921,7 @@ def run(R):
 
     # ---- threaded
     with _LineMode():
-        nprog = 40 if quick else 400
+        nprog = 60 if quick else 400
         cap = 400
         progs = list(CURATED)
         while len(progs) < nprog:
@@ -915,7 +942,7 @@ def run(R):
                                              "schedules": n})
         R.note("threaded DFS (<=2 pre-emptions): %d programs, %d schedules, %d programs exhausted"
                % (len(progs), total, ncomplete))
-        nrand = 500 if quick else 8000
+        nrand = 1000 if quick else 10000
         done = 0
         for i in range(nrand):
             if R.deadline():
@@ -934,13 +961,20 @@ def replay(data):
     if data.get("mode") == "seq":
         ops = [tuple(o) for o in data["ops"]]
         sr = SeqRun(data["kind"], data["init"], data.get("tick", 0.0), eager)
+        found = []
         try:
             for op in ops:
                 sr.step(op)
         except Fail as f:
-            return True, "%s: %s" % (f.clause, f.what)
+            found.append((f.clause, f.what, f.sig))
         if sr.shrink_finding is not None:
-            return True, "%s: %s" % (sr.shrink_finding[0], sr.shrink_finding[1])
+            found.insert(0, sr.shrink_finding)
+        want = data.get("sig")
+        same = [f for f in found if want is None or f[2] == want]
+        if same:
+            return True, "%s: %s" % (same[0][0], same[0][1])
+        if found:
+            return True, "%s: %s (a different failure than recorded)" % (found[0][0], found[0][1])
         return False, "history of %d operations matches the reference model" % len(ops)
 
     class _R:
